@@ -373,7 +373,11 @@ func (e *Engine) runVC(vc *VC, fn *ssa.Function, fc *FuncContract, splitVals []i
 	}
 	for i, c := range fc.Ensures {
 		kind := "ensures"
-		parts := splitConst(c.E)
+		// a conjunction (also one hidden in macros) is proved conjunct by conjunct
+		var parts []Expr
+		for _, cj := range post.conjuncts(c.E, 0) {
+			parts = append(parts, splitConst(cj)...)
+		}
 		for _, rc := range cases {
 			cpost := post
 			if rc.suffix != "" {
